@@ -673,16 +673,16 @@ Qed.
 
 (* single spectrum *)
 Definition single_spectrum (c : cin) : Prop :=
-  c_nspec c = 1%nat /\ Forall (fun s => s = 0%nat) (c_specnum c) /\ length (c_specnum c) = length (c_inloglam c).
+  c_nspec c = 1%nat /\ Forall (fun s => s = 0%nat) (c_specnum c) /\ length (c_specnum c) = length (c_inloglam c) /\
+  c_stacked c = false.          (* a 1-D input: no running median of the weights *)
 (* the input inverse variance, when given, is non-negative (without objivar the weights are 1) *)
 Definition ivar_input_nonneg (c : cin) : Prop :=
   match c_ivar c with Some iv => Forall (fun w => 0 <= w) iv | None => True end.
 
-Lemma weights_nonneg_single c : (c_nspec c <= 1)%nat -> ivar_input_nonneg c -> forall i, 0 <= nthQ (weights c) i.
+Lemma weights_nonneg_single c : c_stacked c = false -> ivar_input_nonneg c -> forall i, 0 <= nthQ (weights c) i.
 Proof.
   unfold weights, ivar_input_nonneg. intros Hn H i. destruct (c_ivar c) as [iv|].
-  - replace (2 <=? c_nspec c)%nat with false by (symmetry; apply Nat.leb_gt; lia).
-    apply Forall_nthQ; [apply Qle_refl|exact H].
+  - rewrite Hn. apply Forall_nthQ; [apply Qle_refl|exact H].
   - apply Forall_nthQ; [apply Qle_refl|]. induction (c_inloglam c); constructor; [discriminate|assumption].
 Qed.
 
@@ -690,7 +690,7 @@ Qed.
 Theorem ivar_nonneg c fits :
   single_spectrum c -> ivar_input_nonneg c -> Forall (fun v => 0 <= v) (snd (combine1fiber_model c fits)).
 Proof.
-  intros (Hn & _ & _) Hiv. apply ivar_nonneg_weights. apply weights_nonneg_single; [lia|exact Hiv].
+  intros (_ & _ & _ & Hn) Hiv. apply ivar_nonneg_weights. apply weights_nonneg_single; [exact Hn|exact Hiv].
 Qed.
 
 Lemma nth_all_zero (l : list nat) i : Forall (fun s => s = 0%nat) l -> nth i l 0%nat = 0%nat.
@@ -765,7 +765,7 @@ Proof.
   intros Hss Hs Hl Hiv Hpos Hlen. cbn zeta. intro H.
   destruct (model_ivar_nonzero c fits q H) as [E H1]. rewrite E.
   assert (Hw : weights c = iv).
-  { unfold weights. rewrite Hiv. destruct Hss as (-> & _). reflexivity. }
+  { unfold weights. rewrite Hiv. destruct Hss as (_ & _ & _ & ->). reflexivity. }
   pose proof (stages_snd_single c fits q (proj1 Hss)) as E2. rewrite E2 in H1.
   revert E2. generalize (nthQ (snd (stages c fits)) q). intros v E2.
   unfold expo in H1, E2. rewrite (these_of_single c Hss), Hw, <- Hlen in H1, E2.
